@@ -363,6 +363,8 @@ func cmdCheck(args []string) {
 	}
 	for _, u := range unbound {
 		fmt.Println("  unbound:", u)
+		fmt.Printf("UNDECIDED property=%s: %s - its obligations could not be generated, nothing about it is decided on this tree\n", *prop, u)
+		undecided++
 	}
 	wall := time.Since(t0).Seconds()
 	fmt.Printf("property=%s tier=%s functions=%d obligations=%d discharged=%d covers=%d known=%d undecided=%d violations=%d wall=%.1fs\n", *prop, *tier, len(funcsUnder), nObl, nDis, nCover, known, undecided, violations, wall)
